@@ -14,7 +14,8 @@ from numbers import Integral
 
 import numpy as np
 
-from odl.operator.operator import Operator
+from odl.operator.operator import (
+    Operator, OperatorLeftVectorMult, OperatorRightVectorMult)
 from odl.set import ComplexNumbers, RealNumbers
 from odl.space import ProductSpace, tensor_space
 from odl.space.base_tensors import TensorSpace
@@ -1427,6 +1428,22 @@ class WeightedSumSamplingOperator(Operator):
         return repr(self)
 
 
+def _inner_product_weights(space):
+    """Return the weights of the inner product of ``space``.
+
+    The result is a float for constant weightings (this includes the
+    cell volume of uniformly discretized spaces) and a ``space`` element
+    for array weightings.
+    """
+    weighting = getattr(space, 'weighting', None)
+    if hasattr(weighting, 'const'):
+        return float(weighting.const)
+    elif hasattr(weighting, 'array'):
+        return space.element(weighting.array)
+    else:
+        return float(getattr(space, 'cell_volume', 1.0))
+
+
 class FlatteningOperator(Operator):
 
     """Operator that reshapes the object as a column vector.
@@ -1506,8 +1523,11 @@ class FlatteningOperator(Operator):
         >>> abs(op.adjoint(op(x)).inner(x) - op(x).inner(op(x))) < 1e-10
         True
         """
-        scaling = getattr(self.domain, 'cell_volume', 1.0)
-        return 1 / scaling * self.inverse
+        weights = _inner_product_weights(self.domain)
+        if np.isscalar(weights):
+            return 1 / weights * self.inverse
+        else:
+            return OperatorLeftVectorMult(self.inverse, 1 / weights)
 
     @property
     def inverse(self):
@@ -1533,7 +1553,7 @@ class FlatteningOperator(Operator):
         True
         """
         op = self
-        scaling = getattr(self.domain, 'cell_volume', 1.0)
+        weights = _inner_product_weights(self.domain)
 
         class FlatteningOperatorInverse(Operator):
 
@@ -1557,7 +1577,10 @@ class FlatteningOperator(Operator):
             @property
             def adjoint(self):
                 """Adjoint of this operator, a scaled `FlatteningOperator`."""
-                return scaling * op
+                if np.isscalar(weights):
+                    return weights * op
+                else:
+                    return OperatorRightVectorMult(op, weights)
 
             @property
             def inverse(self):
